@@ -1,11 +1,13 @@
 #!/bin/bash
 # Build the framework from files on disk only (offline): harness (against /repo) + Coq development.
-set -e
+# Every check rebuilds what it needs itself; this only warms the caches, so a part that fails to
+# build here does not stop the others (the check that needs it reports it).
 cd "$(dirname "$0")"
 export CARGO_NET_OFFLINE=true
 mkdir -p .cache/work evidence/replay
 [ -f harness/Cargo.lock ] || cp /repo/Cargo.lock harness/Cargo.lock
-( cd harness && cargo build --offline --bins 2>&1 | tail -3 )
+( cd harness && cargo build --offline --bins --keep-going 2>&1 | tail -3 )
 python3 -c "import sys; sys.path.insert(0,'lib'); import vlib; vlib.coq_makefile()"
-( cd coq && timeout 3000 make -j16 2>&1 | grep -v "^COQ\|Closed under" | tail -20 )
+( cd coq && timeout 3000 make -k -j16 2>&1 | grep -v "^COQ\|Closed under" | tail -20 )
 echo setup-done
+exit 0
